@@ -275,6 +275,9 @@ class FIXTester:
         m[41] = orig_clord_id
         m[39] = ord_status
 
+        assert (
+            ord_status != FOrdStatus.CREATED
+        ), "CREATED is library-internal, not a FIX OrdStatus"
         assert cxl_req.msg_type in [
             FMsg.ORDERCANCELREQUEST,
             FMsg.ORDERCANCELREPLACEREQUEST,
@@ -326,6 +329,9 @@ class FIXTester:
 
         m = FIXMessage(FMsg.EXECUTIONREPORT)
         assert clord_id
+        assert (
+            ord_status != FOrdStatus.CREATED
+        ), "CREATED is library-internal, not a FIX OrdStatus"
         m[FTag.ClOrdID] = clord_id
 
         if order.order_id is None:
